@@ -41,7 +41,7 @@ func init() {
 		Run:     runC14,
 		Finish:  c14Finish,
 		MinimaFor: func(t string) map[string]int {
-			return map[string]int{"w1-rpcs-concurrent": tierN(t, 1200, 24000), "w2-streams": tierN(t, 25, 500), "w2-both-sides-progressed": tierN(t, 10, 200)}
+			return map[string]int{"w1-rpcs-concurrent": tierN(t, 1200, 24000), "w2-streams": tierN(t, 150, 3000), "w2-both-sides-progressed": tierN(t, 60, 1200)}
 		},
 	})
 }
@@ -444,7 +444,7 @@ func c14W2(c *Ctx, i int, r *rand.Rand, modeB bool) {
 	if err != nil {
 		return
 	}
-	fault := pick(r, []string{"none", "none", "bad-envelope", "oversize-frame", "garbage-payload", "body-error", "truncated"})
+	fault := pick(r, []string{"none", "none", "bad-envelope", "oversize-frame", "garbage-payload", "body-error", "truncated", "truncated-payload", "truncated-payload"})
 	raw := append([]byte(nil), built.Raw...)
 	spans := frameSpans(raw)
 	at := r.IntN(len(spans))
@@ -466,6 +466,14 @@ func c14W2(c *Ctx, i int, r *rand.Rand, modeB bool) {
 		endErr = io.ErrUnexpectedEOF
 	case "truncated":
 		raw = raw[:spans[at].start+3]
+	case "truncated-payload":
+		// a clean end of the body in the middle of a payload (the envelope announced more)
+		if spans[at].plen < 2 {
+			raw = raw[:spans[at].start+3]
+			fault = "truncated"
+		} else {
+			raw = raw[:spans[at].start+5+1+r.IntN(spans[at].plen-1)]
+		}
 	}
 	h := &duplexHandler{k: k, nWrite: k.rounds}
 	rec := newRecorder()
@@ -543,7 +551,10 @@ func runC14(c *Ctx, i int, r *rand.Rand) {
 	p.recordHist = modeB && c.Thorough() && i%4 == 1
 	p.mu.Unlock()
 	if i%3 == 2 {
-		c14W2(c, i, r, modeB)
+		// duplex streams are cheap: several per round, each with its own fault and pairing
+		for rep := 0; rep < 6; rep++ {
+			c14W2(c, i, r, modeB)
+		}
 	} else {
 		c14W1(c, i, r, modeB)
 	}
